@@ -65,6 +65,17 @@ static void plain(void)
             hx_free(out);
         }
     }
+    /* zero padding to the next block boundary (ascon_xof_pad / ascon_xofa_pad): XOF(m1 || 0^pad || m2), a no-op when already aligned; several pads in a row pad once */
+    for (size_t k = 0; k <= 26; k++) for (size_t rest = 0; rest <= 17; rest += (rest < 10 ? 1 : 7)) for (int twice = 0; twice < 2; twice++) {
+        uint8_t pm[64], o[40], e2[40]; size_t pk = (k + 7) / 8 * 8; xst s;
+        memset(pm, 0, sizeof pm); memcpy(pm, msg, k); memcpy(pm + pk, msg + k, rest);
+        ref_xof(A, pm, pk + rest, e2, 40);
+        x_init(&s); x_absorb(&s, msg, k);
+        if (A) { ascon_xofa_pad(&s.xa); if (twice) ascon_xofa_pad(&s.xa); } else { ascon_xof_pad(&s.x); if (twice) ascon_xof_pad(&s.x); }
+        x_absorb(&s, msg + k, rest); x_squeeze(&s, o, 40); x_free(&s);
+        hx_stat("evaluations", 1); hx_stat("nontrivial", 1);
+        if (memcmp(o, e2, 40)) hx_fail(nm("xof:pad:xof"), "absorb(%zu), pad%s, absorb(%zu) differs from XOF over the zero-padded message pat=%d", k, twice ? " x2" : "", rest, pat);
+    }
     /* long outputs */
     for (unsigned i = 0; i < 6; i++) {
         size_t ol = longs[i]; uint8_t *out = hx_buf(ol); xst s;
